@@ -107,7 +107,7 @@ Definition C17_domb (iris : list str) : bool :=
 
 (** instance dictionary: instance id -> classes *)
 Definition is_instance (I : dict (list str)) (c i : str) : Prop :=
-  exists cs, dget I i = Some cs /\ In c cs.
+  exists cs, In (i, cs) I /\ In c cs.
 
 (** ids of the instances of [c] in dictionary order (an id occurs once per
     occurrence of [c] in its class list) *)
